@@ -12,7 +12,7 @@ import jobs as registry  # noqa: E402
 TECH = 'CBMC code contracts on the real sources: %s'
 
 PROPS = {
-    'C01': ('proof', 'Frame (assigns) obligations and store-side pointer obligations on the real functions: unbounded for the 25 functions under loop contracts (strcpy_s, strncpy_s, strcat_s, strncat_s, strnlen_s, wcsnlen_s, 7 classifiers, 6 searches/comparisons, 5 single-loop writers) and the loop-free wrappers, bounded stand-ins (stated bound) for the rest.',
+    'C01': ('proof', 'Frame (assigns) obligations and store-side pointer obligations on the real functions: unbounded for the 28 functions under loop contracts (strcpy_s, strncpy_s - disjoint and intersecting extents -, strcat_s, strncat_s, strnlen_s, wcsnlen_s, 7 classifiers, 6 searches/comparisons, 6 single-loop writers, bsearch_s, timingsafe_bcmp/memcmp) and the loop-free wrappers, bounded stand-ins (stated bound) for the rest.',
             'assigns-clause frame checks + pointer checks under function contracts (loop contracts where closed, else bounded unwinding)'),
     'C02': ('proof', 'Load-side pointer obligations with exact-fit objects (every stray read is a named obligation), unterminated inputs included; unbounded where loop contracts close, bounded elsewhere.',
             'pointer-check obligations on exact-fit objects under function/loop contracts; bounded unwinding stand-ins'),
@@ -24,7 +24,7 @@ PROPS = {
             'ghost-state contracts on the constraint-handler dispatch, ensures clauses on every entry point covered'),
     'C06': ('proof', 'Quantifier-free characterisation of the exact result (ghost indices) as postcondition; word-unrolled primitives by bounded enumeration.',
             'functional ensures clauses with ghost indices (CBMC loop contracts); bounded harnesses vs. reference functions'),
-    'C07': ('proof', 'Loop-free full-domain contracts for the overlap decision of the eight memory copy/move wrappers (every placement, 64-bit sizes) modulo the primitive contracts; bounded stand-ins: every relative placement of src and dest of the string family in one arena against an interval-overlap reference, the move primitives by enumeration.',
+    'C07': ('proof', 'Unbounded (loop contracts): strcpy_s / strncpy_s with intersecting extents in either order - success only for disjoint written/read elements with the original text, ESOVRLP only when they would intersect. Loop-free full-domain contracts for the overlap decision of the eight memory copy/move wrappers (every placement, 64-bit sizes) modulo the primitive contracts; bounded stand-ins: every relative placement of src and dest of the string family in one arena against an interval-overlap reference, the move primitives by enumeration.',
             'function contracts on the memory wrappers (CBMC, loop-free) + bounded CBMC harness over all placements inside one arena'),
     'C09': ('model_checking', 'Bounded: the pre-scan of each of the 20 delegating entry points against a reference scanner of the directive grammar (libc formatter as assumed contract whose requires clause is "no %n directive"), all formats <= 5 characters over a 9-letter alphabet; the narrow engine with one concrete format per run incl. every %n spelling.',
             'requires-clause on the assumed libc formatter contract checked at every call site (bounded CBMC); concrete-format runs of the real engine'),
@@ -40,7 +40,7 @@ PROPS = {
             'bounded CBMC harness over call sequences with a reference tokenizer'),
     'C15': ('proof', 'Wrapper logic of the six converters against assumed libc contracts (count/characters passed through unaltered, cleared on error, len clamped to dmax); narrow-destination wrappers loop-free full domain, wide-destination ones bounded. Round trips / locale: not applicable.',
             'assumed contracts on libc converters with requires checked at call sites; wrapper postconditions by CBMC'),
-    'C16': ('proof', 'bsearch_s bounded against linear search; smoothsort leaf functions under contract (cycle rotation for widths incl. > 256, shl/shr/pntz full 128-bit domain). Whole qsort_s not decided.',
+    'C16': ('proof', 'bsearch_s under a loop contract for every nmemb (comparator arguments in range, returned element matches, termination) and bounded against linear search; smoothsort leaf functions under contract (cycle rotation for widths incl. > 256, shl/shr/pntz full 128-bit domain). Whole qsort_s not decided.',
             'function contracts on cycle/shl/shr/pntz enforced by CBMC; bounded harness for bsearch_s'),
     'C17': ('proof', 'Full 2^32 domain: Hangul composition/decomposition arithmetic incl. rejection above U+10FFFF, round trip lemma, iswfc vs towfc_s count agreement; table conformance to the UCD not applicable.',
             'loop-free full-domain postconditions on the real lookup code (CBMC)'),
